@@ -40,6 +40,7 @@ def _init_sc3():
     silence_sc3_logging()
     import sc3
     sc3.init('nrt')
+    gg.install_bytesio_guard()
 
 
 def _snapshot():
@@ -301,13 +302,13 @@ def scopes(tier):
             ('m2-fused-wide', 'AKP1m', [WIDE, WIDE], ('last', 'first+last'), ()),
             ('m3-outs', 'AK2', [OPS3, OPS3, OPS3], ('first+last', 'mid+last'), ()),
             ('m3-ctl', 'APm', [OPS2, OPS3, OPS2], ('last',), ()),
-            ('m3-wide', 'AKPm2', [OPS3, OPS3, OPS3], ('last',), ()),
+            ('m3-wide', 'AKPm', [OPS3, OPS3, OPS3], ('last',), ()),
             ('m3-fused', 'AK2', [WIDE, ('add', 'sub', 'mul', 'neg', 'madd'),
                                  OPS3], ('last',), ()),
             ('m4-mul', 'A', [OPS3, OPS3, OPS3, OPS3],
              ('last', 'second', 'mid+last'), ()),
-            ('m4-two', 'AK', [OPS2, OPS2, OPS2, OPS2], ('last', 'second'), ()),
-            ('m5', 'A', [OPS2, OPS2, OPS2, OPS2, OPS2], ('last',), ()),
+            ('m4-two', 'AK', [OPS2, OPS2, OPS2, OPS2], ('last',), ()),
+            ('m5', 'A', [('add', 'neg'), OPS2, OPS2, OPS2, OPS2], ('last',), ()),
         ]
     return s
 
@@ -489,7 +490,7 @@ def main(rep):
     for si in range(len(sc)):
         for k in range(nsplit):
             tasks.append(('scope', tier, si, k, nsplit))
-    nrand = 30000 if quick else 600000
+    nrand = 30000 if quick else 500000
     batch = 500 if quick else 4000
     base = rep.rng.randrange(1 << 30)
     for b in range(nrand // batch):
